@@ -302,12 +302,25 @@ pub fn fault_events(seed: u64, thorough: bool, dir: &str) -> Vec<Value> {
         let (P, A) = (p.P.to_clarabel(), p.A.to_clarabel());
         let mut st = p.settings();
         st.direct_solve_method = "qdldl".into();
-        let s1 = DefaultSolver::new(&P, &p.q, &A, &p.b, &p.clarabel_cones(), st);
-        let mut f = tmpfile(dir, "base.json");
-        s1.save_to_file(&mut f).unwrap();
-        f.seek(SeekFrom::Start(0)).unwrap();
-        let mut text = String::new();
-        f.read_to_string(&mut text).unwrap();
+        // (a panic or an error while writing the base file is itself a finding about save_to_file, not a harness failure)
+        let saved = catch_unwind(AssertUnwindSafe(|| -> Result<String, String> {
+            let s1 = DefaultSolver::new(&P, &p.q, &A, &p.b, &p.clarabel_cones(), st);
+            let mut f = tmpfile(dir, "base.json");
+            s1.save_to_file(&mut f).map_err(|e| e.to_string())?;
+            f.seek(SeekFrom::Start(0)).unwrap();
+            let mut text = String::new();
+            f.read_to_string(&mut text).unwrap();
+            Ok(text)
+        }));
+        let text = match saved {
+            Ok(Ok(t)) => t,
+            other => {
+                let msg = match other { Ok(Err(m)) => m, Err(e) => crate::rec_ipm::panic_msg(e), _ => String::new() };
+                out.push(json!({"ev": "RoundTrip", "run": 100000 + bi, "save_ok": false, "load_ok": false, "panic": msg, "settings_equal": false, "timelimit_roundtrip": false,
+                                "override_applied": false, "reduced": true, "equil": true, "status_equal": false, "obj_ok": false}));
+                continue;
+            }
+        };
         let bytes = text.as_bytes();
         out.push(fault_event(id, bi, "none", "".into(), &text, "ok", dir)); id += 1;
         // a saved file that an independent reader does not accept is reported by the event above; the fault
